@@ -14,8 +14,13 @@
 From OV Require Import Common.Base.
 Local Open Scope N_scope.
 
-Inductive variant := Repaired | Defective.
-Definition is_defective (v : variant) : bool := match v with Defective => true | Repaired => false end.
+(* Repaired  : every recorded defect repaired (the theorems)
+   Defective : the code as first found (Release pushes unassignable addresses back, prefixToIndex
+               accepts foreign prefixes, one poolVRFs map shared by the three pool families)
+   SharedVrf : Release and prefixToIndex repaired, poolVRFs still shared *)
+Inductive variant := Repaired | Defective | SharedVrf.
+Definition is_defective (v : variant) : bool := match v with Defective => true | _ => false end.
+Definition shared_vrf (v : variant) : bool := match v with Repaired => false | _ => true end.
 
 Inductive family := V4 | V6.
 Definition fam_eqb (a b : family) : bool :=
@@ -329,24 +334,91 @@ Definition pd_ledger_step (v : variant) (c : pdcfg) (m : lease_map) (e : pdcall 
 Definition pd_ledger v c (evs : list (pdcall * pdout)) : lease_map := fold_left (pd_ledger_step v c) evs [].
 
 (* ================================================================ registry *)
-(* Names (profiles, pools, VRFs) are numbers; VRF 0 is the empty string (no VRF). *)
+(* The Registry holds three families of allocators: IPv4 pools (r.allocators), IPv6 IA_NA pools
+   (r.ianaAllocators: PoolAllocators as well) and IPv6 PD pools (r.pdAllocators: PrefixAllocators),
+   each with its own profile -> ordered pool list map, and ONE pool -> VRF map (r.poolVRFs) keyed by
+   "profile/pool" only.  Names (profiles, pools, VRFs) are numbers; VRF 0 is "" (no VRF). *)
+Inductive rfam := F4 | FNA | FPD.
+Definition rfam_eqb (a b : rfam) : bool :=
+  match a, b with F4, F4 | FNA, FNA | FPD, FPD => true | _, _ => false end.
 Definition key := (N * N)%type.     (* profileName + "/" + pool.Name *)
 Definition key_eqb (a b : key) : bool := N.eqb (fst a) (fst b) && N.eqb (snd a) (snd b).
 
+(* an allocator's configuration: address pool or prefix pool; both run the pool state machine *)
+Inductive acfg := APool (c : pcfg) | APd (c : pdcfg).
+Definition acfg_pool (a : acfg) : pcfg := match a with APool c => c | APd c => pd_pool_cfg c end.
+(* an argument of a registry call: net.IP or *net.IPNet *)
+Inductive rarg := RA (a : option addr) | RP (p : pfx).
+(* an Allocate answer: address, or prefix (16-byte IP as a number, ones, bits) *)
+Inductive gobs := OA (a : addr) | OP (ip ones bits : N).
+
+(* the key an allocator files an argument under; None: the allocator ignores the call *)
+Definition akey (v : variant) (ac : acfg) (x : rarg) : option addr :=
+  match ac, x with
+  | APool _, RA a => norm a
+  | APd c, RP p => match prefix_to_index v c p with Some i => Some (key_of_idx i) | None => None end
+  | _, _ => None
+  end.
+(* PoolAllocator.Contains / PrefixAllocator.Contains *)
+Definition contains (c : pcfg) (raw : option addr) : bool :=
+  match norm raw with Some a => in_range c a | None => false end.
+Definition acontains (v : variant) (ac : acfg) (x : rarg) : bool :=
+  match ac, x with
+  | APool c, RA a => contains c a
+  | APd c, RP p => match prefix_to_index v c p with Some _ => true | None => false end
+  | _, _ => false
+  end.
+(* the key of an Allocate answer; None: not something this allocator can have handed out *)
+Definition aobs_key (v : variant) (ac : acfg) (o : gobs) : option addr :=
+  match ac, o with
+  | APool _, OA a => Some a
+  | APd c, OP ip ones bits =>
+      match prefix_to_index v c (Pfx (Some (V6, ip)) ones bits) with
+      | Some i => if N.eqb (index_to_prefix c i) ip then Some (key_of_idx i) else None
+      | None => None
+      end
+  | _, _ => None
+  end.
+
 Record rpool := {
   rp_name : N;
-  rp_prio : Z;          (* only used for v4 pools *)
+  rp_prio : Z;           (* only IPv4 pools have a priority *)
   rp_vrf : N;
-  rp_cfg : option pcfg  (* None: Network / range strings do not parse, no allocator is created *)
+  rp_cfg : option acfg   (* None: Network / range strings do not parse (or NewPrefixAllocator
+                            returned nil): no allocator is created *)
 }.
-Record rprofile := { rf_name : N; rf_sorted : bool (* v4: sort by priority; v6: configuration order *);
-                     rf_pools : list rpool }.
+(* one pool list of one profile: IPv4Profile.Pools, IPv6Profile.IANAPools or IPv6Profile.PDPools *)
+Record rprofile := { rf_name : N; rf_fam : rfam; rf_pools : list rpool }.
 
+Definition amap := list (key * (acfg * pstate)).
 Record rstate := {
-  r_allocs : list (key * (pcfg * pstate));     (* r.allocators *)
-  r_profile_pools : list (N * list key);       (* r.profilePools *)
-  r_vrfs : list (key * N)                      (* r.poolVRFs *)
+  r_a4 : amap; r_ana : amap; r_apd : amap;                 (* allocators / ianaAllocators / pdAllocators *)
+  r_l4 : list (N * list key); r_lna : list (N * list key); r_lpd : list (N * list key);
+                                                           (* profilePools / profileIANAPools / profilePDPools *)
+  r_vrfs : list ((rfam * key) * N)                         (* poolVRFs *)
 }.
+Definition r_allocs (st : rstate) (f : rfam) : amap :=
+  match f with F4 => r_a4 st | FNA => r_ana st | FPD => r_apd st end.
+Definition r_lists (st : rstate) (f : rfam) : list (N * list key) :=
+  match f with F4 => r_l4 st | FNA => r_lna st | FPD => r_lpd st end.
+Definition set_allocs (st : rstate) (f : rfam) (m : amap) : rstate :=
+  match f with
+  | F4 => {| r_a4 := m; r_ana := r_ana st; r_apd := r_apd st; r_l4 := r_l4 st; r_lna := r_lna st; r_lpd := r_lpd st; r_vrfs := r_vrfs st |}
+  | FNA => {| r_a4 := r_a4 st; r_ana := m; r_apd := r_apd st; r_l4 := r_l4 st; r_lna := r_lna st; r_lpd := r_lpd st; r_vrfs := r_vrfs st |}
+  | FPD => {| r_a4 := r_a4 st; r_ana := r_ana st; r_apd := m; r_l4 := r_l4 st; r_lna := r_lna st; r_lpd := r_lpd st; r_vrfs := r_vrfs st |}
+  end.
+Definition set_lists (st : rstate) (f : rfam) (l : list (N * list key)) : rstate :=
+  match f with
+  | F4 => {| r_a4 := r_a4 st; r_ana := r_ana st; r_apd := r_apd st; r_l4 := l; r_lna := r_lna st; r_lpd := r_lpd st; r_vrfs := r_vrfs st |}
+  | FNA => {| r_a4 := r_a4 st; r_ana := r_ana st; r_apd := r_apd st; r_l4 := r_l4 st; r_lna := l; r_lpd := r_lpd st; r_vrfs := r_vrfs st |}
+  | FPD => {| r_a4 := r_a4 st; r_ana := r_ana st; r_apd := r_apd st; r_l4 := r_l4 st; r_lna := r_lna st; r_lpd := l; r_vrfs := r_vrfs st |}
+  end.
+Definition set_vrfs (st : rstate) (m : list ((rfam * key) * N)) : rstate :=
+  {| r_a4 := r_a4 st; r_ana := r_ana st; r_apd := r_apd st; r_l4 := r_l4 st; r_lna := r_lna st; r_lpd := r_lpd st; r_vrfs := m |}.
+
+(* as found: one map keyed by "profile/pool" for all three families; repaired: one per family *)
+Definition vkey (v : variant) (f : rfam) (k : key) : rfam * key := if shared_vrf v then (F4, k) else (f, k).
+Definition vkey_eqb (a b : rfam * key) : bool := rfam_eqb (fst a) (fst b) && key_eqb (snd a) (snd b).
 
 Fixpoint assoc_find {A B} (eqb : A -> A -> bool) (k : A) (l : list (A * B)) : option B :=
   match l with
@@ -369,58 +441,63 @@ Fixpoint insert_by_prio (p : rpool) (l : list rpool) : list rpool :=
 Definition sort_by_prio (l : list rpool) : list rpool :=
   fold_left (fun acc p => insert_by_prio p acc) l [].
 
-Definition mk_rstate a p v := {| r_allocs := a; r_profile_pools := p; r_vrfs := v |}.
-
-(* one iteration of the outer loop of initV4Pools (rf_sorted) / the IANA half of initV6Pools *)
-Definition init_pool (pfname : N) (s : rstate) (p : rpool) : rstate :=
+(* one iteration of the pool loop of initV4Pools / initV6Pools *)
+Definition init_pool (v : variant) (f : rfam) (pfname : N) (s : rstate) (p : rpool) : rstate :=
   let k := (pfname, rp_name p) in
-  let vr := if N.eqb (rp_vrf p) 0 then r_vrfs s else assoc_set key_eqb k (rp_vrf p) (r_vrfs s) in
-  let al := match assoc_find key_eqb k (r_allocs s) with
-            | Some _ => r_allocs s                               (* if exists { continue } *)
-            | None => match rp_cfg p with
-                      | Some c => r_allocs s ++ [(k, (c, pool_init c))]
-                      | None => r_allocs s
-                      end
-            end in
-  mk_rstate al (r_profile_pools s) vr.
-Definition init_profile (st : rstate) (pf : rprofile) : rstate :=
-  let ordered := if rf_sorted pf then sort_by_prio (rf_pools pf) else rf_pools pf in
+  let s1 := if N.eqb (rp_vrf p) 0 then s
+            else set_vrfs s (assoc_set vkey_eqb (vkey v f k) (rp_vrf p) (r_vrfs s)) in
+  match assoc_find key_eqb k (r_allocs s1 f) with
+  | Some _ => s1                                                   (* if exists { continue } *)
+  | None => match rp_cfg p with
+            | Some c => set_allocs s1 f (r_allocs s1 f ++ [(k, (c, pool_init (acfg_pool c)))])
+            | None => s1
+            end
+  end.
+Definition init_profile (v : variant) (st : rstate) (pf : rprofile) : rstate :=
+  let f := rf_fam pf in
+  let ordered := match f with F4 => sort_by_prio (rf_pools pf) | _ => rf_pools pf end in
   let names := map (fun p => (rf_name pf, rp_name p)) ordered in
-  let st1 := mk_rstate (r_allocs st) (assoc_set N.eqb (rf_name pf) names (r_profile_pools st)) (r_vrfs st) in
-  fold_left (init_pool (rf_name pf)) (rf_pools pf) st1.
-Definition reg_init (pfs : list rprofile) : rstate := fold_left init_profile pfs (mk_rstate [] [] []).
+  let st1 := set_lists st f (assoc_set N.eqb (rf_name pf) names (r_lists st f)) in
+  fold_left (init_pool v f (rf_name pf)) (rf_pools pf) st1.
+Definition reg_empty : rstate :=
+  {| r_a4 := []; r_ana := []; r_apd := []; r_l4 := []; r_lna := []; r_lpd := []; r_vrfs := [] |}.
+(* the list must carry every IPv4 pool list before the IA_NA list before the PD list of an equally
+   named profile (newRegistry: initV4Pools, then per v6 profile IANA then PD) *)
+Definition reg_init (v : variant) (pfs : list rprofile) : rstate := fold_left (init_profile v) pfs reg_empty.
 
-Definition vrf_of (st : rstate) (k : key) : N :=
-  match assoc_find key_eqb k (r_vrfs st) with Some v => v | None => 0 end.
-Definition pools_of (st : rstate) (profile : N) : list key :=
-  match assoc_find N.eqb profile (r_profile_pools st) with Some l => l | None => [] end.
-Definition has_free (st : rstate) (k : key) : bool :=
-  match assoc_find key_eqb k (r_allocs st) with
+Definition vrf_of (v : variant) (st : rstate) (f : rfam) (k : key) : N :=
+  match assoc_find vkey_eqb (vkey v f k) (r_vrfs st) with Some x => x | None => 0 end.
+Definition pools_of (st : rstate) (f : rfam) (profile : N) : list key :=
+  match assoc_find N.eqb profile (r_lists st f) with Some l => l | None => [] end.
+Definition has_free (st : rstate) (f : rfam) (k : key) : bool :=
+  match assoc_find key_eqb k (r_allocs st f) with
   | Some (_, ps) => match free ps with [] => false | _ => true end
   | None => false
   end.
 
-(* the pool AllocateFromProfile answers from: override first (if it names a pool of the profile that
+(* the pool Allocate*FromProfile answers from: override first (if it names a pool of the profile that
    still has a free address), then the profile's list in order, same VRF only *)
-Definition walk_target (st : rstate) (vrf : N) (l : list key) : option key :=
-  find (fun k => N.eqb (vrf_of st k) vrf && has_free st k) l.
-Definition alloc_target (st : rstate) (profile override vrf : N) : option key :=
-  if negb (N.eqb override 0) && has_free st (profile, override) then Some (profile, override)
-  else walk_target st vrf (pools_of st profile).
-
-Definition contains (c : pcfg) (raw : option addr) : bool :=
-  match norm raw with Some a => in_range c a | None => false end.
+Definition walk_target (v : variant) (st : rstate) (f : rfam) (vrf : N) (l : list key) : option key :=
+  find (fun k => N.eqb (vrf_of v st f k) vrf && has_free st f k) l.
+Definition alloc_target (v : variant) (st : rstate) (f : rfam) (profile override vrf : N) : option key :=
+  if negb (N.eqb override 0) && has_free st f (profile, override) then Some (profile, override)
+  else walk_target v st f vrf (pools_of st f profile).
 
 Inductive rcall :=
-| RAlloc (profile override vrf : N) (s : sid) (obs : option (key * addr))
-| RRelease (k : key) (a : option addr)                           (* Registry.Release(poolName, ip) *)
-| RReserveInPool (k : key) (a : option addr) (s : sid) (obs : option key)
-| RReserveIP (a : option addr) (s : sid) (obs : option key)      (* obs: pool the walk over the Go map stopped at *)
-| RReleaseIP (a : option addr)                                   (* every pool *)
+| RAlloc (f : rfam) (profile override vrf : N) (s : sid) (obs : option (key * gobs))
+| RRelease (f : rfam) (k : key) (x : rarg)                        (* Release / ReleaseIANA / ReleasePD (poolName, ..) *)
+| RReserveInPool (f : rfam) (k : key) (x : rarg) (s : sid) (obs : option key)
+| RReserve (f : rfam) (x : rarg) (s : sid) (obs : option key)     (* ReserveIP / ReserveIANA / ReservePD: walk *)
+| RReleaseInPool (f : rfam) (k : key) (x : rarg) (obs : option key)
+| RReleaseByValue (f : rfam) (x : rarg) (obs : option key)        (* ReleaseIP, ReleaseIANAByIP: every pool;
+                                                                     ReleasePDByPrefix: first pool containing it *)
 | RSetDir (b : bool)
-| RAvail (k : key).
+| RAvail (f : rfam) (k : key)
+| RPools (f : rfam) (profile : N).
+(* obs of the walks `for _, alloc := range <Go map> { if alloc.Contains(x) {...; return} }`:
+   the allocator the implementation stopped at (Go map order) *)
 Inductive rout :=
-| ROAddr (k : key) (a : addr) | ROExhausted | ROOk | ROReserved | RONum (n : N) | RONoPool.
+| ROAns (k : key) (o : gobs) | ROExhausted | ROOk | ROReserved | RONum (n : N) | RONoPool | ROList (l : list key).
 
 Definition rout_of (o : out) : rout :=
   match o with
@@ -428,77 +505,94 @@ Definition rout_of (o : out) : rout :=
   | ONum n => RONum n
   end.
 
-Definition set_alloc (st : rstate) (k : key) (c : pcfg) (ps : pstate) : rstate :=
-  mk_rstate (assoc_set key_eqb k (c, ps) (r_allocs st)) (r_profile_pools st) (r_vrfs st).
-
-(* a pool call on the allocator stored under k *)
-Definition on_pool (v : variant) (st : rstate) (k : key) (pc : call) : option (rstate * out) :=
-  match assoc_find key_eqb k (r_allocs st) with
+(* a pool-machine call on the allocator stored under k *)
+Definition on_pool (v : variant) (st : rstate) (f : rfam) (k : key) (mk : acfg -> option call)
+  : option (rstate * out) :=
+  match assoc_find key_eqb k (r_allocs st f) with
   | None => None
-  | Some (c, ps) =>
-      match pool_call v c ps pc with
-      | Some (ps', o) => Some (set_alloc st k c ps', o)
+  | Some (ac, ps) =>
+      match mk ac with
       | None => None
+      | Some pc =>
+          match pool_step v (acfg_pool ac) ps pc with
+          | Some (ps', o) => Some (set_allocs st f (assoc_set key_eqb k (ac, ps') (r_allocs st f)), o)
+          | None => None
+          end
       end
   end.
+Definition mk_reserve v x s (ac : acfg) : option call := Some (CReserve (akey v ac x) s).
+Definition mk_release v x (ac : acfg) : option call := Some (CRelease (akey v ac x)).
+Definition mk_alloc v s (o : gobs) (ac : acfg) : option call :=
+  match aobs_key v ac o with Some a => Some (CAlloc s (Some a)) | None => None end.
 
-(* the containment walk `for _, alloc := range r.allocators { if alloc.Contains(ip) {...} }`:
-   Go map order, so the pool is the implementation's choice; admissible iff it contains ip *)
-Definition reserve_walk (v : variant) (st : rstate) (a : option addr) (s : sid) (obs : option key)
-  : option (rstate * rout) :=
+(* containment walk; the allocator is the implementation's choice, admissible iff it contains x *)
+Definition walk (v : variant) (st : rstate) (f : rfam) (x : rarg) (obs : option key)
+                (mk : acfg -> option call) : option (rstate * rout) :=
   match obs with
   | None =>
-      if existsb (fun e => contains (fst (snd e)) a) (r_allocs st) then None else Some (st, ROOk)
+      if existsb (fun e => acontains v (fst (snd e)) x) (r_allocs st f) then None else Some (st, ROOk)
   | Some k =>
-      match assoc_find key_eqb k (r_allocs st) with
-      | Some (c, _) =>
-          if contains c a
-          then match on_pool v st k (CReserve a s) with
+      match assoc_find key_eqb k (r_allocs st f) with
+      | Some (ac, _) =>
+          if acontains v ac x
+          then match on_pool v st f k mk with
                | Some (st', o) => Some (st', rout_of o) | None => None end
           else None
       | None => None
       end
   end.
+Definition map_pools (v : variant) (st : rstate) (f : rfam) (mk : acfg -> option call) : rstate :=
+  set_allocs st f
+    (map (fun e => match mk (fst (snd e)) with
+                   | Some pc => match pool_step v (acfg_pool (fst (snd e))) (snd (snd e)) pc with
+                                | Some (ps', _) => (fst e, (fst (snd e), ps'))
+                                | None => e end
+                   | None => e end) (r_allocs st f)).
 
 Definition reg_step (v : variant) (st : rstate) (k : rcall) : option (rstate * rout) :=
   match k with
-  | RAlloc profile override vrf s obs =>
-      match alloc_target st profile override vrf, obs with
+  | RAlloc f profile override vrf s obs =>
+      match alloc_target v st f profile override vrf, obs with
       | None, None => Some (st, ROExhausted)
-      | Some t, Some (k', a) =>
+      | Some t, Some (k', o) =>
           if key_eqb t k'
-          then match on_pool v st t (CAlloc s (Some a)) with
-               | Some (st', _) => Some (st', ROAddr t a) | None => None end
+          then match on_pool v st f t (mk_alloc v s o) with
+               | Some (st', _) => Some (st', ROAns t o) | None => None end
           else None
       | _, _ => None
       end
-  | RRelease k' a =>
-      match on_pool v st k' (CRelease a) with
+  | RRelease f k' x =>
+      match on_pool v st f k' (mk_release v x) with
       | Some (st', _) => Some (st', ROOk)
       | None => Some (st, ROOk)
       end
-  | RReserveInPool k' a s obs =>
-      match assoc_find key_eqb k' (r_allocs st) with
-      | Some _ => match on_pool v st k' (CReserve a s) with
+  | RReserveInPool f k' x s obs =>
+      match assoc_find key_eqb k' (r_allocs st f) with
+      | Some _ => match on_pool v st f k' (mk_reserve v x s) with
                   | Some (st', o) => Some (st', rout_of o) | None => None end
-      | None => reserve_walk v st a s obs
+      | None => walk v st f x obs (mk_reserve v x s)
       end
-  | RReserveIP a s obs => reserve_walk v st a s obs
-  | RReleaseIP a =>
-      Some (mk_rstate (map (fun e => match pool_call v (fst (snd e)) (snd (snd e)) (CRelease a) with
-                                     | Some (ps', _) => (fst e, (fst (snd e), ps'))
-                                     | None => e end) (r_allocs st))
-                      (r_profile_pools st) (r_vrfs st), ROOk)
+  | RReserve f x s obs => walk v st f x obs (mk_reserve v x s)
+  | RReleaseInPool f k' x obs =>
+      match assoc_find key_eqb k' (r_allocs st f) with
+      | Some _ => match on_pool v st f k' (mk_release v x) with
+                  | Some (st', _) => Some (st', ROOk) | None => None end
+      | None => walk v st f x obs (mk_release v x)
+      end
+  | RReleaseByValue f x obs =>
+      match f with
+      | FPD => walk v st f x obs (mk_release v x)
+      | _ => Some (map_pools v st f (mk_release v x), ROOk)
+      end
   | RSetDir b =>
-      Some (mk_rstate (map (fun e => match pool_call v (fst (snd e)) (snd (snd e)) (CSetDir b) with
-                                     | Some (ps', _) => (fst e, (fst (snd e), ps'))
-                                     | None => e end) (r_allocs st))
-                      (r_profile_pools st) (r_vrfs st), ROOk)
-  | RAvail k' =>
-      match assoc_find key_eqb k' (r_allocs st) with
+      Some (map_pools v (map_pools v (map_pools v st F4 (fun _ => Some (CSetDir b))) FNA (fun _ => Some (CSetDir b)))
+                      FPD (fun _ => Some (CSetDir b)), ROOk)
+  | RAvail f k' =>
+      match assoc_find key_eqb k' (r_allocs st f) with
       | Some (_, ps) => Some (st, RONum (N.of_nat (length (free ps))))
       | None => Some (st, RONoPool)
       end
+  | RPools f profile => Some (st, ROList (pools_of st f profile))
   end.
 
 Fixpoint reg_run_from (v : variant) (st : rstate) (ks : list rcall) : option (rstate * list (rcall * rout)) :=
@@ -512,5 +606,82 @@ Fixpoint reg_run_from (v : variant) (st : rstate) (ks : list rcall) : option (rs
           | None => None
           | Some (st2, evs) => Some (st2, (k, o) :: evs)
           end
+      end
+  end.
+
+(* ---------------------------------------------------------------- pkg/dhcp/resolve.go, allocation decisions *)
+(* ResolveV4: no address in the context -> AllocateFromProfile, else ReserveIP; nil on any error *)
+Inductive res4 := R4Nil | R4 (ip : addr) (pool : option key).
+Definition resolve4 (v : variant) (st : rstate) (profile override vrf : N) (s : sid)
+                    (have : option addr) (obs : option (key * gobs)) (wobs : option key)
+  : option (rstate * res4) :=
+  match have with
+  | None =>
+      match reg_step v st (RAlloc F4 profile override vrf s obs) with
+      | Some (st', ROAns k (OA a)) => Some (st', R4 a (Some k))
+      | Some (st', ROExhausted) => Some (st', R4Nil)
+      | _ => None
+      end
+  | Some a =>
+      match reg_step v st (RReserve F4 (RA (Some a)) s wobs) with
+      | Some (st', ROOk) => Some (st', R4 a None)
+      | Some (st', ROReserved) => Some (st', R4Nil)
+      | _ => None
+      end
+  end.
+
+(* ResolveV6: IA_NA then PD; a failed allocation leaves that part empty, a reservation conflict
+   aborts (the other part may already have been allocated and stays in the context); nil when the
+   context ends up with neither address nor prefix *)
+Record r6 := { r6_nil : bool;             (* ResolveV6 returned nil *)
+               r6_na : option addr;       (* ctx.IPv6Address after the call *)
+               r6_napool : option key;    (* ctx.AllocatedIANAPool *)
+               r6_pd : option gobs;       (* prefix allocated by this call *)
+               r6_pdpool : option key }.
+Definition resolve6 (v : variant) (st : rstate) (profile naov pdov vrf : N) (s : sid)
+                    (havena : option addr) (havepd : option pfx)
+                    (obsna obspd : option (key * gobs)) (wna wpd : option key)
+  : option (rstate * r6) :=
+  let r1 :=
+    match havena with
+    | None =>
+        match reg_step v st (RAlloc FNA profile naov vrf s obsna) with
+        | Some (st', ROAns k (OA a)) => Some (st', false, Some a, Some k)
+        | Some (st', ROExhausted) => Some (st', false, None, None)
+        | _ => None
+        end
+    | Some a =>
+        match reg_step v st (RReserve FNA (RA (Some a)) s wna) with
+        | Some (st', ROOk) => Some (st', false, Some a, None)
+        | Some (st', ROReserved) => Some (st', true, Some a, None)
+        | _ => None
+        end
+    end in
+  match r1 with
+  | None => None
+  | Some (st1, true, na, napool) =>
+      Some (st1, {| r6_nil := true; r6_na := na; r6_napool := napool; r6_pd := None; r6_pdpool := None |})
+  | Some (st1, false, na, napool) =>
+      let r2 :=
+        match havepd with
+        | None =>
+            match reg_step v st1 (RAlloc FPD profile pdov vrf s obspd) with
+            | Some (st', ROAns k o) => Some (st', false, Some o, Some k)
+            | Some (st', ROExhausted) => Some (st', false, None, None)
+            | _ => None
+            end
+        | Some p =>
+            match reg_step v st1 (RReserve FPD (RP p) s wpd) with
+            | Some (st', ROOk) => Some (st', false, None, None)
+            | Some (st', ROReserved) => Some (st', true, None, None)
+            | _ => None
+            end
+        end in
+      match r2 with
+      | None => None
+      | Some (st2, abort, pd, pdpool) =>
+          let nothing := match na, havepd, pd with None, None, None => true | _, _, _ => false end in
+          Some (st2, {| r6_nil := abort || nothing; r6_na := na; r6_napool := napool;
+                        r6_pd := pd; r6_pdpool := pdpool |})
       end
   end.
